@@ -2,7 +2,7 @@
 (2) random netlists (py/designs.py style) wrapped in a Logic subclass with real in/out ports.
 (3) whole port-less HWSystems, input-only / output-only blocks and the accumulator loop in every port configuration.
 Everything is reproducible from a small JSON-able recipe:  ('lib', name, params) | ('rand', seed, params) |
-('top', seed, params) | ('loop', variant) | ('par', variant) | ('gate', variant) | ('selfloop', variant)."""
+('top', seed, params) | ('loop', variant) | ('par', variant) | ('gate', variant) | ('dup', variant) | ('selfloop', variant)."""
 import random
 from common import quiet, quiet_import
 
@@ -152,8 +152,16 @@ def _populate(self, py4hw, ins, outs, rng, p):
             recipe.append((kind, lambda cls=cls, n=n, a=a, b=b, r=r: cls(self, n, a, b, r)))
         elif kind == 'same2':                         # one wire on two pins of the same child
             r = new(a.getWidth())
-            cls = rng.choice([py4hw.And2, py4hw.Xor2, py4hw.Add])
-            recipe.append((kind, lambda cls=cls, n=n, a=a, r=r: cls(self, n, a, a, r)))
+            cls = rng.choice([py4hw.And2, py4hw.Xor2, py4hw.Add, 'cmp', 'mux'])
+            if cls == 'cmp':            # a box symbol (generic instance rectangle) reading one wire on two pins
+                r = new(1); g2, e2 = new(1), new(1)
+                recipe.append((kind, lambda n=n, a=a, g2=g2, e2=e2, r=r: py4hw.Comparator(self, n, a, a, g2, e2, r))); pool.append(e2)
+            elif cls == 'mux':
+                sl = new(2); r = new(a.getWidth()); c2 = pick(a)
+                if c2.getWidth() != a.getWidth(): c2 = a
+                recipe.append(('const', lambda n=n, sl=sl: py4hw.Constant(self, n + 'k', 1, sl)))
+                recipe.append((kind, lambda n=n, sl=sl, a=a, c2=c2, r=r: py4hw.Mux(self, n, sl, [c2, a, a, c2], r)))
+            else: recipe.append((kind, lambda cls=cls, n=n, a=a, r=r: cls(self, n, a, a, r)))
         elif kind == 'par':         # 2 or 3 DIFFERENT wires from one multi-output child into one gate that sits deep (far input from the newest logic)
             grp = rng.choice(multi); xs = rng.sample(list(grp), rng.choice([2, 3]))
             far = recent[-1] if recent else pick1(*grp)
@@ -451,6 +459,53 @@ GATES = ([(c, n, 1) for c in ('And', 'Or') for n in (2, 3, 8, 9, 12, 17)] + [(c,
          [('Add', k, 8) for k in (0, 1, 2)] + [('Reg', k, 4) for k in (0, 1, 2)] + [('BitsLSBF', 0, 10), ('Concat', 9, 2), ('Or', 33, 1)])
 
 
+def build_dup(variant):
+    """ONE wire on SEVERAL input pins of the same child (and a child's own output on two of its inputs), for box symbols and gate
+    symbols alike.  variant = (cls, pattern): pattern says which in-port wire (a, b, c ..; q = the child's own output) goes to
+    each input of the child."""
+    py4hw = quiet_import()
+    import py4hw.logic.bitwise as B
+    import py4hw.logic.relational as R
+    cls, pat = variant
+    w = 4
+
+    class Dup(py4hw.Logic):
+        def __init__(self, parent, name, hw):
+            super().__init__(parent, name)
+            width = {'s': 2 if cls == 'Mux4' else 1}
+            srcs = {}
+            def W(ch):
+                if ch not in srcs:
+                    if ch == 'q': srcs[ch] = self.wire('q', 1 if cls == 'Reg' and pat in ('dqq',) else w)
+                    else: srcs[ch] = self.addIn(ch, hw.wire('i_' + ch, width.get(ch, 1 if (cls, ch) in (('Reg', 'e'), ('Mux2', 's'), ('Swap', 's'), ('Select', 'e'), ('Select', 'f')) else w)))
+                return srcs[ch]
+            O = lambda nm, wd=w: self.addOut(nm, hw.wire('o_' + nm, wd))
+            if cls == 'Mux4': B.Mux(self, 'g', W('s'), [W(ch) for ch in pat], O('r'))
+            elif cls == 'Comparator': R.Comparator(self, 'g', W(pat[0]), W(pat[1]), O('gt', 1), O('eq', 1), O('lt', 1))
+            elif cls == 'Swap': R.Swap(self, 'g', W(pat[0]), W(pat[1]), W('s'), O('ra'), O('rb'))
+            elif cls == 'Select': B.Select(self, 'g', [W('e'), W('e'), W('f')], [W(ch) for ch in pat], O('r'))
+            elif cls == 'Reg':
+                if pat == 'dee': py4hw.Reg(self, 'g', W('d'), O('q'), enable=W('e'), reset=W('e'))        # enable and reset on one wire
+                elif pat == 'dqq':                                                                          # own output on enable AND reset
+                    q = W('q'); py4hw.Reg(self, 'pre', W('d'), self.wire('p', 1)) ; py4hw.Reg(self, 'g', self.children['pre'].outPorts[0].wire, q, enable=q, reset=q)
+                    py4hw.Buf(self, 'ob', q, O('r', 1))
+                else: raise ValueError(pat)
+            elif cls in ('And', 'Or', 'Xor', 'Nor'): getattr(B, cls)(self, 'g', [W(ch) for ch in pat], O('r'))
+            elif cls in ('And2', 'Xor2', 'Add', 'Sub'): getattr(py4hw, cls)(self, 'g', W(pat[0]), W(pat[1]), O('r'))
+            elif cls == 'Mux2': B.Mux2(self, 'g', W('s'), W(pat[0]), W(pat[1]), O('r'))
+            elif cls == 'Concat': B.ConcatenateMSBF(self, 'g', [W(ch) for ch in pat], O('r', w * len(pat)))
+            else: raise ValueError(cls)
+    with quiet():
+        hw = py4hw.HWSystem()
+        obj = Dup(hw, 'dut', hw)
+    return obj
+
+
+DUPS = [('Mux4', 'abbc'), ('Mux4', 'aaaa'), ('Mux4', 'abab'), ('Comparator', 'aa'), ('Swap', 'aa'), ('Select', 'aba'), ('Reg', 'dee'), ('Reg', 'dqq'),
+        ('And', 'aab'), ('Or', 'abab'), ('Xor', 'aba'), ('Nor', 'aab'), ('And2', 'aa'), ('Xor2', 'aa'), ('Add', 'aa'), ('Sub', 'aa'), ('Mux2', 'aa'),
+        ('Concat', 'abba')]
+
+
 def build_selfloop(variant):
     """the smallest netlists with feedback through a register: a child whose output is wired straight to one of its
     own inputs.  variant: which pin ('e' enable, 'r' reset, 'd' data) and how many buffers sit between the in-port and
@@ -483,6 +538,7 @@ def build(recipe):
     if recipe[0] == 'loop': return build_loop(tuple(recipe[1]))
     if recipe[0] == 'par': return build_par(tuple(recipe[1]))
     if recipe[0] == 'gate': return build_gate(tuple(recipe[1]))
+    if recipe[0] == 'dup': return build_dup(tuple(recipe[1]))
     if recipe[0] == 'top': return build_top(recipe[1], recipe[2])
     if recipe[0] == 'rand': return build_rand(recipe[1], recipe[2])
     raise ValueError(recipe)
